@@ -80,6 +80,29 @@ def extract_sym(prog, fn):
         prims = [(_re.compile(r"HashMap::<K, V, S(, A)?>::get$"), p_get)]
         env = {prm["lid"]: ("in", prm["name"]) for prm in fn.params}
         I, val, ex = wire.run_region(prog, fn.body, env, prims, depth=8)
+        # every way the scenario can end: a row whose result depends on something beyond (kind, serialization) — e.g. on
+        # what the SerializesAs target looks like — has several
+        pts = []
+        try:
+            for cs, v, lp in sym.value_points(I.events, val):
+                if v is not None and v not in pts:
+                    pts.append(v)
+        except Exception:
+            pts = []
+        # a `?` that gives up on a condition the scenario does not fix (the *shape* of the SerializesAs target, say)
+        def cond_exits(evs, out):
+            for e in evs:
+                if e[0] == "alt":
+                    for alt in e[1]:
+                        if alt[2] in ("err", "return") and alt[0] is not True:
+                            out.append(alt[0])
+                        cond_exits(alt[1], out)
+                elif e[0] == "rep":
+                    cond_exits(e[2], out)
+            return out
+        if cond_exits(I.events, []):
+            pts = pts + [sym.var(sym.NONE)]
+        run.points = pts
         return val, ex
 
     def outcome(val, ex):
@@ -125,7 +148,15 @@ def extract_sym(prog, fn):
         except sym.Exit as e:
             table[key] = ("panic",) if e.kind == "err" else ("?",)
             return
-        table[key] = outcome(val, ex)
+        o = outcome(val, ex)
+        alts = []
+        for v in getattr(run, "points", []):
+            o2 = outcome(v, None)
+            if o2 not in alts:
+                alts.append(o2)
+        if len(alts) > 1 and o[0] != "panic":
+            o = ("depends",) + tuple(sorted(alts, key=repr))
+        table[key] = o
     for sv in svs + ["_"]:
         s_ = sv if sv != "_" else "__Unlisted"
         attempt(("Canonical", sv), kind_term("Canonical", s_, "found"), None)
@@ -206,11 +237,13 @@ def rule_desc(c, prog):
         else:
             c.violation(R, f"row|{key[0]}|{key[1]}", f"the two copies of find_property_descriptors disagree for a {key[0]} property with serialization {key[1]}: binary yields {b}, XML yields {x} — the same DOM would be written/read under different names by the two formats", xf.sp, instance=inst)
     c.floor(R, len(bt), 8, "table rows (binary)")
-    # exhaustive evaluation over the database
+    # exhaustive evaluation over the database (when a row's outcome depends on something the table does not capture the
+    # row itself has been reported above and the per-name comparison would only repeat it several thousand times)
     d = dbm.Database()
     n = 0
     diffs = []
-    for ck in sorted(d.classes):
+    conditional = any(v and v[0] == "depends" for v in list(bt.values()) + list(xt.values()))
+    for ck in ([] if conditional else sorted(d.classes)):
         names = set()
         for a in d.chain(ck):
             names |= set(d.classes[a].props)
@@ -229,7 +262,8 @@ def rule_desc(c, prog):
     c.analysed["C06_desc_pairs_evaluated"] = n
     for ck, nm, rb, rx in diffs[:20]:
         c.violation(R, f"db|{ck}.{nm}", f"on the bundled database {ck}.{nm} resolves to {rb} through the binary copy and {rx} through the XML copy", "", instance=f"db:{ck}.{nm}")
-    c.floor(R, n, 20000, "class x visible property pairs evaluated")
+    if not conditional:
+        c.floor(R, n, 20000, "class x visible property pairs evaluated")
 
 
 def rule_name(c, prog, R="C06.name"):
